@@ -53,6 +53,8 @@ PROGRAMS = {
             ["enable_eom", "g", 2.0, 0.0, -1.0], ["add_eom", "g", 40, 0.0], ["delay", "g", 20], ["add_eom", "g", 40, 1.0],
             ["disable_eom", "g"], ["add", "g", ["cp", 52, 1.0, 0.0, 0.5]]],
     # EOM disabled as the very last thing on the channel (differences confined to the trailing buffer)
+    "eom_long_idle": [["declare", "g", "ryd_glob"], ["add", "g", ["cp", 100, 1.0, 0.0, 0.0]], ["enable_eom", "g", 1.0, 0.0, 0.0], ["add_eom", "g", 100, 0.0],
+                      ["delay", "g", 400], ["disable_eom", "g"], ["add", "g", ["cp", 100, 1.0, 0.0, 0.0]]],
     "eom_tail": [["declare", "g", "ryd_glob"], ["add", "g", ["cp", 100, 1.0, 0.0, 0.0]],
                  ["enable_eom", "g", 2.0, 0.0, -1.0], ["add_eom", "g", 40, 0.0], ["disable_eom", "g"]],
     # the same channel declared twice on a reusable device, only the second one uses the EOM
@@ -114,6 +116,10 @@ def mk_device_b(inp, A, shape):
         pool[cid] = dataclasses.replace(ch, **{param: v})
     for (cid, param, val) in shape.get("concrete", []):
         pool = chans if cid in chans else dmms
+        if param == "eom.controlled_beams":
+            from pulser.channels.eom import RydbergBeam
+
+            val = {"both": (RydbergBeam.BLUE, RydbergBeam.RED), "red": (RydbergBeam.RED,), "blue": (RydbergBeam.BLUE,)}[val]
         if param.startswith("eom."):
             pool[cid] = dataclasses.replace(pool[cid], eom_config=dataclasses.replace(pool[cid].eom_config, **{param[4:]: val}))
         else:
@@ -131,6 +137,25 @@ def mk_device_b(inp, A, shape):
     return B, sym
 
 
+def merged_idle(tl):
+    """Timeline with runs of adjacent delay slots (same targets) merged into one: where one idle period is cut into several delay
+    slots is not observable (disable_eom_mode followed by a pulse waits `buffer` then `rest` on one device, `fall` then `rest'` on
+    the other, the same total)."""
+    out = dict(tl)
+    out["schedule"] = {}
+    for name, cs in tl["schedule"].items():
+        slots = []
+        for sl in cs["slots"]:
+            prev = slots[-1] if slots else None
+            if (prev is not None and sl[0] == ("delay",) and prev[0] == ("delay",) and sl[3] == prev[3]
+                    and not is_sym(sl[1]) and not is_sym(prev[2]) and prev[2] == sl[1]):
+                slots[-1] = (slots[-1][0], slots[-1][1], sl[2], sl[3])
+            else:
+                slots.append(tuple(sl))
+        out["schedule"][name] = dict(cs, slots=slots)
+    return out
+
+
 def h_switch(shape):
     def h(inp):
         stubs.bind(inp, fixed=shape["program"].startswith("eom"))
@@ -139,7 +164,12 @@ def h_switch(shape):
         seq = l2.new_seq(shape.get("device", "virt"))
         A = seq.device
         prog = PROGRAMS[shape["program"]]
-        if shape.get("param"):
+        if shape.get("param") == "late":
+            # ... or only after the whole (concrete) program: the timeline so far is known, what follows is deferred
+            l2.run_prefix(inp, seq, prog)
+            v = seq.declare_variable("v", dtype=int)
+            seq.delay(v, list(seq.declared_channels)[0])
+        elif shape.get("param"):
             # the sequence becomes parametrized right after the channel declarations: everything else is deferred
             ndecl = sum(1 for op in prog if op[0] == "declare")
             l2.run_prefix(inp, seq, prog[:ndecl])
@@ -172,9 +202,9 @@ def h_switch(shape):
             return obs
         if strict and shape.get("param"):
             b1, b2 = seq.build(v=16), new.build(v=16)
-            obs.append(("strict:identical_timeline", l2.snap_equal(l2.timeline(b1), l2.timeline(b2))))
+            obs.append(("strict:identical_timeline", l2.snap_equal(merged_idle(l2.timeline(b1)), merged_idle(l2.timeline(b2)))))
         elif strict:
-            obs.append(("strict:identical_timeline", l2.snap_equal(l2.timeline(seq), l2.timeline(new))))
+            obs.append(("strict:identical_timeline", l2.snap_equal(merged_idle(l2.timeline(seq)), merged_idle(l2.timeline(new)))))
         else:
             # every limit of B holds for the new sequence
             terms = []
@@ -296,6 +326,13 @@ def kernels(tier):
         for conc in ([["ryd_glob", "eom.intermediate_detuning", 1050 * TWO_PI]], [["ryd_glob", "eom.max_limiting_amp", 5 * TWO_PI]],
                      [["ryd_glob", "eom.custom_buffer_time", 120]]):
             ks.append(("switch", dict(program="eom_twice", device="virt_reuse", sym=[], concrete=conc, reusable=True, strict=True, param=param)))
+    # an EOM block that ended after a long idle time (no fall time left to wait for): a custom buffer equal to the default one still
+    # changes what disable_eom_mode appends; concrete, parametrized from the start, parametrized after the block
+    for param in (False, True, "late"):
+        for prog in ("eom_long_idle", "eom_tail", "eom"):
+            for conc in ([["ryd_glob", "eom.custom_buffer_time", 48]], [["ryd_glob", "eom.custom_buffer_time", 120]],
+                         [["ryd_glob", "eom.controlled_beams", "both"]], [["ryd_glob", "eom.controlled_beams", "red"]]):
+                ks.append(("switch", dict(program=prog, sym=[], concrete=conc, strict=True, param=param)))
     return ks
 
 
